@@ -1,11 +1,11 @@
 """Stage: the public HTTP API (handler/http/server.go) <-> spec/HttpRelay.tla.  HTTP part of C01.
 
 1. design level: TLC explores HttpRelay exhaustively (2 request slots, rounds 1..4, any watch stream: items may
-   skip / repeat, the stream may fail or be re-opened between any two steps, wall clock may tick).  The C01 monitor
-   is EXPECTED to fail on the transcribed code in exactly two shapes (F12 a/b); the exhaustive config checks that
-   nothing else breaks it, two small configs produce the shortest counterexample of each shape.
-2. spec -> code: the counterexamples and a transition tour of the complete labelled state graph of a smaller
-   instance (every (state, action) edge at least once) become step scripts.
+   skip / repeat, the stream may fail or be re-opened between any two steps, wall clock may tick) with the C01
+   monitor as an invariant.  Two more configs (monotone streams) keep searching for the two shapes in which the
+   handler used to break it (F12 a/b, repaired): empty 200 after a skipped round, a later round after a reset.
+2. spec -> code: a transition tour of the complete labelled state graph of a smaller instance (every
+   (state, action) edge at least once) and any model counterexample become step scripts.
 3. the Go harness replays them on the REAL DrandHandler (scripted client.Client over a fabricated valid chain,
    one gate between the two looks of getRand) and records every response with oracle booleans.
 4. code -> spec: Trace_HttpRelay evaluates the monitor on the observed responses (TLC decides) and reports any
@@ -153,10 +153,10 @@ def run(ctx, monitors=MON_C01_HTTP):
             ctx.model_check("HttpRelay", "MC_HttpRelay_big.cfg", workers=W, timeout=1200)
         for cfg, shape in (("MC_HttpRelay_f12a.cfg", "empty 200 body after a skipped round"),
                            ("MC_HttpRelay_f12b.cfg", "a later round answered after a stream reset")):
-            r = ctx.model_check("HttpRelay", cfg, expect_ok=False, workers=1, timeout=300)
-            if r.timeout or (r.error and not r.violated):
-                ctx.inconclusive.append("TLC failed on %s: %s" % (cfg, r.error or "timeout"))
-            elif r.violated:
+            # a violation here is a MODEL counterexample (inconclusive by itself): it is replayed on the real
+            # handler below, where only the trace monitors can turn it into a verdict
+            r = ctx.model_check("HttpRelay", cfg, workers=W, timeout=300)
+            if r.violated:
                 s = cex_script(r, "tlc-cex-" + cfg[13:-4])
                 if s:
                     scripts.append(s)
@@ -164,8 +164,8 @@ def run(ctx, monitors=MON_C01_HTTP):
                                      % (cfg, r.violated, shape, len(s["steps"])))
                 else:
                     ctx.inconclusive.append("could not read TLC's counterexample of %s" % cfg)
-            else:
-                ctx.notes.append("%s: the transcribed handler satisfies the monitor (no counterexample)" % cfg)
+            elif r.finished:
+                ctx.notes.append("%s: no counterexample (%s cannot happen on the design)" % (cfg, shape))
         # ---- 2. transition tour of the complete labelled graph
         r = ctx.model_check("HttpRelay", "MC_HttpRelay_tour.cfg" if q else "MC_HttpRelay_tour4.cfg", workers=1, timeout=300,
                             extra=["-dump", "dot,actionlabels", "graph.dot"])
@@ -191,6 +191,14 @@ def run(ctx, monitors=MON_C01_HTTP):
                          % (len(inits), nedges, total, WALK_LEN, len(walks), len(covered)))
         ctx.extra["http_edges_total"] = nedges
         ctx.extra["http_edges_replayed"] = len(covered)
+        # ---- the two behaviours TLC found as counterexamples before the repair of F12 a/b (always replayed)
+        pre = [("ReqStart", [1, 1]), ("NodeAdvance", []), ("WatchItem", [1]), ("ReqStart", [1, 2]), ("ReqCheck2", [1])]
+        for name, rest in (("f12a-regression", [("NodeAdvance", []), ("NodeAdvance", []), ("WatchItem", [3])]),
+                           ("f12b-regression", [("StreamFail", []), ("Reconnect", []), ("NodeAdvance", []),
+                                                ("NodeAdvance", []), ("WatchItem", [3])])):
+            for cur in (1, 3):
+                scripts.append({"name": "%s-cur%d" % (name, cur), "cur": cur,
+                                "steps": [{"a": a, "args": g} for a, g in pre + rest]})
         # ---- idle-timer reconnects (real 2 s timer; every round long due, 1 s period)
         idle = [("ReqStart", [1, 2]), ("NodeAdvance", []), ("NodeAdvance", []), ("NodeAdvance", []), ("NodeAdvance", []),
                 ("WatchItem", [2]), ("ReqStart", [1, 3]), ("ReqCheck2", [1]), ("IdleReconn", []),
